@@ -284,7 +284,11 @@ impl RecordDefinition<NativeDatumDetails> {
     /// This is used to determine the size of the byte buffer required to store any variant of this
     /// record definition.
     pub fn max_size(&self) -> usize {
-        self.datum_definitions()
+        // Only the data placed in a variant have an offset, a datum removed before its variant
+        // was closed stays in the collection without ever being placed.
+        self.variants()
+            .flat_map(|v| v.data())
+            .map(|d| &self[d])
             .map(|d| d.details().offset() + d.details().size())
             .max()
             .unwrap_or(0)
